@@ -10,8 +10,11 @@ Streams
                   update) under block matrices `irreps.D_from_matrix(R)`, R in O(3).
   * dropout     : the mask is recovered from the real output (y/x), checked (factor set, constancy over
                   components and middle dimensions), fed to the model; eval identity; equivariance.
+  * witnesses   : the negative theorems of Props/C13.lean replayed on the real code — layouts with a zero
+                  multiplicity or of dimension 0 are constructible but every forward raises
+                  (keys BatchNorm.forward/zero-multiplicity, BatchNorm.forward/empty-irreps).
 A model/code disagreement alone is reported as `corr:*` (no failing input); a failed oracle is a violation
-with a concrete replay.
+with a concrete replay (`./check C13 --replay replays/<file>` re-runs a recorded history on both sides).
 """
 from __future__ import annotations
 
@@ -469,6 +472,51 @@ def real_dropout(c):
     return res, mask, fails
 
 
+def witnesses(ctx):
+    """constructible layouts on which every forward raises (negative theorems of Props/C13.lean), replayed on
+    the real code in both modes; also the empty-middle-dimension observation (NaN statistics, outside the model)"""
+    import torch
+    from e3nn.nn import BatchNorm
+
+    found = {}
+    for key, layout, shape in (("BatchNorm.forward/zero-multiplicity", "0x1e+2x0e", (3, 2)),
+                               ("BatchNorm.forward/zero-multiplicity", "2x0e+0x0e", (3, 2)),
+                               ("BatchNorm.forward/empty-irreps", "", (2, 0))):
+        for training in (True, False):
+            call = "BatchNorm(%r).train(%s)(torch.zeros(%r))" % (layout, training, shape)
+            try:
+                with warnings.catch_warnings():
+                    warnings.simplefilter("ignore")
+                    m = BatchNorm(layout).to(torch.float64)
+                    m.train(training)
+                    y = m(torch.zeros(shape, dtype=torch.float64))
+                ctx.count("witness:%s:returns" % key)
+                # the code no longer raises: the model (which rejects) is out of date -> correspondence, not e3nn
+                ctx.violation("corr:batchnorm-rejected-layout", {"call": call, "real": "returns %s" % (tuple(y.shape),),
+                                                                 "model": "error"}, found=False)
+            except Exception as e:  # noqa: BLE001
+                ctx.count("witness:%s:raises:%s" % (key, type(e).__name__))
+                ctx.case("witness %s %r training=%s -> %s" % (key, layout, training, type(e).__name__))
+                found.setdefault(key, []).append({"call": call, "observed": "%s: %s" % (type(e).__name__, str(e)[:200]),
+                                                  "expected": "a tensor of shape %r" % (shape,)})
+    for key, ws in found.items():
+        ctx.violation(key, {
+            "witnesses": ws,
+            "why": "the layout is a valid o3.Irreps and the module is constructed without complaint, but every forward raises "
+                   "in every mode (reshape with -1 on zero elements); Dropout accepts the same layouts",
+            "model_theorem": "E3nnVerif.Props.C13.zero_multiplicity_always_rejected / empty_irreps_always_rejected",
+        }, found=True)
+    # observation only (documented in `assumptions`): an empty middle dimension poisons the statistics with NaN
+    try:
+        with warnings.catch_warnings():
+            warnings.simplefilter("ignore")
+            m = BatchNorm("2x0e+1x1o").to(torch.float64)
+            m(torch.zeros(2, 0, 5, dtype=torch.float64))
+        ctx.notes["empty_middle_dimension"] = "training forward on shape (2,0,5): running_var=%s" % m.running_var.tolist()
+    except Exception as e:  # noqa: BLE001
+        ctx.notes["empty_middle_dimension"] = "raises %s" % type(e).__name__
+
+
 # ----------------------------------------------------------------------------------------------
 def run(ctx):
     ok, out = ctx.lake_build(["E3nnVerif.Props.C13"])
@@ -491,6 +539,7 @@ def run(ctx):
     pos = 0
     n_disagree = 0
     n_oracle = 0
+    reported = set()
     for h, sd in zip(hists, seeds):
         real, failures = real_history(h["lines"], sd)
         mo = [parse_model_line(s) for s in model_out[pos:pos + len(h["lines"])]]
@@ -514,19 +563,27 @@ def run(ctx):
         ctx.count("layout:" + (h["layout"] or "<empty>"))
         ctx.count("opts:affine=%s,reduce=%s,instance=%s,bias=%s,%s" % (cfg[4], cfg[5], cfg[6], cfg[7], cfg[8]))
         ctx.count("history-forwards:%d-%d" % (nfw // 10 * 10, nfw // 10 * 10 + 9))
+        if first_bad and real[first_bad[0]][0] == "error" and mo[first_bad[0]][0] == "out":
+            # the real code raises on an input inside the modelled domain: no output at all, the property fails there
+            failures = failures + [("batchnorm/raises-on-valid-input",
+                                    {"line": h["lines"][first_bad[0]][:300], "exc": real[first_bad[0]][1]})]
         for key, detail in failures:
             n_oracle += 1
-            if n_oracle <= 5:
+            if key not in reported:
+                reported.add(key)
                 ctx.violation(key, {"lines": h["lines"], "torch_seed": sd, **detail,
                                     "how": "./check C13 --replay <this file>"}, found=True)
         if first_bad and not failures:
             n_disagree += 1
-            if n_disagree <= 3:
+            if n_disagree <= 1:
                 i, d = first_bad
                 ctx.violation("corr:batchnorm", {"lines": h["lines"][: i + 1], "torch_seed": sd, "op_index": i,
                                                  "what": d, "real": real[i], "model": mo[i]}, found=False)
     ctx.obligation("corr:batchnorm-lockstep", n_disagree == 0, f"{n_disagree} histories disagree")
     ctx.obligation("oracles:batchnorm", n_oracle == 0, f"{n_oracle} oracle failures")
+
+    # ---- witnesses of Props.C13.zero_multiplicity_always_rejected / empty_irreps_always_rejected ---------
+    witnesses(ctx)
 
     # ---- Dropout --------------------------------------------------------------------------------------
     cases = [gen_dropout(ctx.rng) for _ in range(n_drop)]
@@ -547,7 +604,8 @@ def run(ctx):
                                                 mask or "0", " ".join(fr(v) for v in c["vals"])))
         for key, detail in fails:
             n_dfail += 1
-            if n_dfail <= 5:
+            if key not in reported:
+                reported.add(key)
                 ctx.violation(key, {"case": {k: str(v) for k, v in c.items()}, **detail}, found=True)
     mouts = ctx.run_driver("C13", lines)
     n_ddis = 0
@@ -563,7 +621,7 @@ def run(ctx):
             bad = "outputs differ"
         if bad:
             n_ddis += 1
-            if n_ddis <= 3:
+            if n_ddis <= 1:
                 ctx.violation("corr:dropout", {"line": ln, "what": bad, "real": r, "model": ms[:2000]}, found=False)
     ctx.obligation("corr:dropout", n_ddis == 0, f"{n_ddis} cases disagree")
     ctx.obligation("oracles:dropout", n_dfail == 0, f"{n_dfail} oracle failures")
